@@ -3,6 +3,7 @@ package eng
 import (
 	"bytes"
 	"encoding/json"
+	"errors"
 	"fmt"
 	"math"
 	"mime/multipart"
@@ -303,10 +304,15 @@ func NewFECase(g *Gen, id int) *Case {
 			body = []byte(bad)
 			comparable = false
 		}
+		nilBody := g.R.P(3) // a request made with http.NewRequest(method, url, nil) / a nil reader
+		if nilBody {
+			bad = "<nil body>"
+			comparable = false
+		}
 		var m map[string]any
 		derr := json.NewDecoder(bytes.NewReader(body)).Decode(&m)
 		switch {
-		case derr != nil || m == nil:
+		case derr != nil || m == nil || nilBody:
 			model = `(DFactory (FErr "invalid_json" ""))`
 		case len(m) == 0:
 			model = "(DFactory FNil)"
@@ -315,16 +321,24 @@ func NewFECase(g *Gen, id int) *Case {
 			model = "(DFactory (FProv (PMap (Some \"json\") " + strings.TrimSuffix(strings.TrimPrefix(CoqIVal(modelIn), "(VMap "), ")") + ")))"
 		}
 		if fe == "zjson" {
-			mkData = func() any { return zjson.Decode(bytes.NewReader(body)) }
+			mkData = func() any {
+				if nilBody {
+					return zjson.Decode(nil)
+				}
+				return zjson.Decode(bytes.NewReader(body))
+			}
 		} else {
 			meth := Pick(g.R, []string{"POST", "PUT", "PATCH", "DELETE", "OPTIONS"})
-			ct := Pick(g.R, []string{"application/json", "application/json; charset=utf-8", "application/json;charset=UTF-8"})
+			ct := Pick(g.R, []string{"application/json", "application/json; charset=utf-8", "application/json;charset=UTF-8", "Application/JSON", " application/json ; charset=utf-8", "APPLICATION/JSON\t"})
 			q := ""
 			if len(n.Fields) > 0 && g.R.P(50) {
 				q = "?" + url.QueryEscape(feKey(n.Fields[0], "json")) + "=decoy"
 			}
 			mkData = func() any {
 				r, _ := http.NewRequest(meth, "http://example.com/p"+q, bytes.NewReader(body))
+				if nilBody {
+					r, _ = http.NewRequest(meth, "http://example.com/p"+q, nil)
+				}
 				r.Header.Set("Content-Type", ct)
 				return zhttp.Request(r)
 			}
@@ -357,7 +371,7 @@ func NewFECase(g *Gen, id int) *Case {
 		enc := vals.Encode()
 		if fe == "http-form" {
 			meth := Pick(g.R, []string{"POST", "PUT", "PATCH", "DELETE"})
-			ct := Pick(g.R, []string{"application/x-www-form-urlencoded", "application/x-www-form-urlencoded; charset=UTF-8"})
+			ct := Pick(g.R, []string{"application/x-www-form-urlencoded", "application/x-www-form-urlencoded; charset=UTF-8", "Application/X-WWW-Form-Urlencoded", " application/x-www-form-urlencoded ;charset=UTF-8"})
 			body := enc
 			query := ""
 			if g.R.P(30) && len(n.Fields) > 0 {
@@ -376,7 +390,14 @@ func NewFECase(g *Gen, id int) *Case {
 			readsBody := meth == "POST" || meth == "PUT" || meth == "PATCH"
 			merged := url.Values{}
 			var perr error
-			if readsBody {
+			nilBody := g.R.P(3)
+			if nilBody {
+				bad = "<nil body>"
+				comparable = false
+			}
+			if readsBody && nilBody {
+				perr = errors.New("missing form body") // net/http: ParseForm on a request without a Body
+			} else if readsBody {
 				bv, err := url.ParseQuery(body)
 				if err != nil {
 					perr = err
@@ -410,6 +431,9 @@ func NewFECase(g *Gen, id int) *Case {
 				r, err := http.NewRequest(meth, u, strings.NewReader(body))
 				if err != nil {
 					panic(err)
+				}
+				if nilBody {
+					r, _ = http.NewRequest(meth, u, nil)
 				}
 				r.Header.Set("Content-Type", ct)
 				if preparse {
